@@ -146,7 +146,7 @@ PROXY_TARGETS = [("Amplifier", "volume"), ("Amplifier", "balance"), ("Amplifier"
                  ("VorbisPlayer", "finetune"), ("Adsr", "attack_curve"), ("Amplifier", "inverse"), ("Lfo", "freq"), ("Glide", "freq_multiply")]
 
 
-def check_proxy(res, T, cname):
+def check_proxy(res, T, cname, via_file=False, full=True):
     """A MetaModule user-defined controller mapped onto an embedded controller takes over its value type:
     the stored encoding of the proxy must be the same bijection (thorough tier)."""
     import rv.api as api
@@ -160,18 +160,32 @@ def check_proxy(res, T, cname):
     mm.user_defined_controllers = 1
     mm.mappings.values[0] = mm.Mapping((1, sc.number - 1))
     mm.update_user_defined_controllers()
+    if via_file:
+        mm = mm.clone()  # the reader resolves the mapped value types again
     unit = next(iter(sc.ranges)) if sc.kind == "dependent" else None
     n = 0
     prev = None
-    for v in sc.domain(unit):
+    dom = list(sc.domain(unit))
+    if not full and len(dom) > 600:
+        dom = dom[:200] + dom[len(dom) // 2 - 100:len(dom) // 2 + 100] + dom[-200:]
+    proxy = type(mm).controllers["user_defined_1"]
+    if sc.kind in ("range", "compact", "no_offset", "dependent"):
+        lo, hi = sc.bounds(unit)
+        res.case((T, cname, "proxy-pattern", via_file))
+        want_lo, want_hi = (0, hi - lo) if sc.kind == "compact" else (0, 0x8000)
+        got_lo, got_hi = proxy.pattern_value(mm, lo), proxy.pattern_value(mm, hi)
+        if (got_lo, got_hi) != (want_lo, want_hi):
+            res.violation(f"C10:proxy-pattern:{sc.kind}:{T}.{cname}", f"user-defined controller mapped on {T}.{cname} ({sc.kind}, via_file={via_file}): pattern encoding of min/max is {got_lo:#x}/{got_hi:#x}, expected {want_lo:#x}/{want_hi:#x}",
+                          {"type": T, "controller": cname, "via_file": via_file})
+    for v in dom:
         n += 1
         want = sc.stored(v, unit)
         mm.set_raw("user_defined_1", want)
         back = mm.user_defined_1
         raw = mm.get_raw("user_defined_1")
         if _val(back) != v or raw != want or (prev is not None and raw <= prev):
-            res.violation(f"C10:proxy:{T}.{cname}", f"user-defined controller mapped on {T}.{cname}: stored {want} reads {back!r}, re-encodes to {raw!r} (value {v!r})",
-                          {"type": T, "controller": cname, "value": _val(v)})
+            res.violation(f"C10:proxy:{sc.kind}:{T}.{cname}", f"user-defined controller mapped on {T}.{cname} ({sc.kind}, via_file={via_file}): stored {want} reads {back!r}, re-encodes to {raw!r} (value {v!r})",
+                          {"type": T, "controller": cname, "value": _val(v), "via_file": via_file})
             break
         prev = raw
     res.evaluations += n
@@ -179,20 +193,79 @@ def check_proxy(res, T, cname):
     res.count("proxy_pairs_checked", n)
 
 
+def short_cval_files(res, tier):
+    """Old-format files stop their CVAL list before newer controllers (the shipped lfo/loop/issue109 files do).  A module
+    loaded from such a file, whose unit is then SET by the user, must encode the dependent controller under that unit."""
+    import struct
+    from io import BytesIO
+    import rv.api as api
+    from rv.modules import MODULE_CLASSES
+    from .. import iffparse
+    sp = spec.load()
+    for T, t in sorted(sp.items()):
+        deps = [c for c in t.controllers if c.kind == "dependent"]
+        if not deps:
+            continue
+        cls = MODULE_CLASSES[t.mtype]
+        raw = api.Synth(cls()).read()
+        chunks = [(c[0], c[1]) for c in iffparse.parse(raw)]
+        names = [c.name for c in t.controllers]
+        for sc in deps:
+            unit_pos = names.index(sc.depends_on)
+            dep_pos = names.index(sc.name)
+            for keep in sorted({unit_pos, max(dep_pos + 1, 1), 1}):
+                if keep > unit_pos:
+                    continue  # the unit controller itself must be missing from the file
+                out, seen = [], 0
+                for cid, pl in chunks:
+                    if cid == b"CVAL":
+                        seen += 1
+                        if seen > keep:
+                            continue
+                    if cid == b"CMID":
+                        pl = pl[:8 * keep]
+                        if not pl:
+                            continue
+                    out.append((cid, pl))
+                try:
+                    m = api.read_sunvox_file(BytesIO(iffparse.build(out))).module
+                except Exception as e:
+                    res.violation(f"C10:short-cval-file-unloadable:{T}", f"{T} file with {keep} CVALs does not load: {e!r}", {"type": T, "kept": keep})
+                    continue
+                ctl = cls.controllers[sc.name]
+                for unit, (lo, hi) in sc.ranges.items():
+                    setattr(m, sc.depends_on, getattr(cls, sc.enum)[unit])
+                    res.case((T, sc.name, "short-cval", keep, unit))
+                    res.count("short_cval_unit_checks")
+                    got = (ctl.pattern_value(m, lo), ctl.pattern_value(m, hi))
+                    m.set_raw(sc.name, hi)
+                    back, raw_hi = getattr(m, sc.name), m.get_raw(sc.name)
+                    if got != (0, 0x8000) or back != hi or raw_hi != hi:
+                        res.violation(f"C10:short-cval-file:{T}.{sc.name}",
+                                      f"{T} loaded from a file with {keep} CVALs, unit set to {unit}: pattern(min,max)={got[0]:#x},{got[1]:#x} (expected 0x0,0x8000), stored max {raw_hi} reads {back}",
+                                      {"type": T, "controller": sc.name, "unit": unit, "kept": keep})
+                        break
+
+
 def run_shard(spec_, res):
     for T, cname, unit in spec_["tasks"]:
         check_controller(res, T, cname, unit)
         if spec_["tier"] == "thorough" and T != "Output":
             check_controller(res, T, cname, unit, via_clone=True)
-    if spec_["tier"] == "thorough":
-        for i, (T, cname) in enumerate(PROXY_TARGETS):
-            if i % 16 == spec_["shard"]:
-                check_proxy(res, T, cname)
+    nshards = 4 if spec_["tier"] == "quick" else 16
+    for i, (T, cname) in enumerate(PROXY_TARGETS):
+        if i % nshards == spec_["shard"]:
+            for via_file in (False, True):
+                check_proxy(res, T, cname, via_file=via_file, full=spec_["tier"] == "thorough")
+    if spec_["shard"] == 0:
+        short_cval_files(res, spec_["tier"])
     res.exhaustive = True
 
 
 def finalize(merged, tier):
     sp = spec.load()
+    if not merged["counters"].get("short_cval_unit_checks"):
+        merged["inconclusive"].append("short-CVAL legacy files were not exercised")
     want = sum(1 for t in sp.values() for c in t.controllers for _ in (c.ranges or [None])) + 1
     if tier == "thorough":
         want = want * 2
